@@ -12,6 +12,7 @@ import (
 	"os/exec"
 	"path/filepath"
 	"regexp"
+	"runtime/pprof"
 	"sort"
 	"strconv"
 	"strings"
@@ -218,6 +219,9 @@ func cmdCheck(args []string) int {
 	solverName := fs.String("solver", "z3", "z3|z3-new|cvc5")
 	smtLog := fs.String("smtlog", "", "write worker 0's SMT-LIB dialogue to this file")
 	noNative := fs.Bool("no-native", false, "skip native replay/validation (debugging only; exit 2)")
+	cpuprof := fs.String("cpuprofile", "", "write CPU profile")
+	paramOv := fs.String("p", "", "override harness params: k=v,k=v")
+	timeoutOv := fs.Int("timeout", 0, "override per-harness exploration deadline (s)")
 	if len(args) < 1 {
 		fmt.Fprintln(os.Stderr, "check: missing property id")
 		return 2
@@ -233,6 +237,11 @@ func cmdCheck(args []string) int {
 	}
 	verifDir := verifDirDefault()
 	t0 := time.Now()
+	if *cpuprof != "" {
+		f, _ := os.Create(*cpuprof)
+		pprof.StartCPUProfile(f)
+		defer pprof.StopCPUProfile()
+	}
 	spec, err := readSpec(verifDir, id)
 	if err != nil {
 		fmt.Fprintln(os.Stderr, "spec:", err)
@@ -282,6 +291,23 @@ func cmdCheck(args []string) int {
 			}
 			if to.Skip {
 				continue
+			}
+			if *paramOv != "" {
+				np := map[string]int{}
+				for k, v := range to.Params {
+					np[k] = v
+				}
+				for _, kv := range strings.Split(*paramOv, ",") {
+					p := strings.SplitN(kv, "=", 2)
+					if len(p) == 2 {
+						n, _ := strconv.Atoi(p[1])
+						np[p[0]] = n
+					}
+				}
+				to.Params = np
+			}
+			if *timeoutOv > 0 {
+				to.TimeoutS = *timeoutOv
 			}
 			unitOf[hs.Func] = u
 			r := runHarness(ld, pkg, hs, to, knownForProp, g)
